@@ -6,7 +6,7 @@ import ast
 from ..cfg import CFG
 from ..consteval import ConstEval
 from ..core import AnalysisError, own_nodes, parent, short, unparse
-from ..rules import lint, dsp, exa, nul
+from ..rules import lint, match, dsp, exa, nul
 from . import common
 
 EXPLANATION = (
@@ -20,6 +20,8 @@ EXPLANATION = (
   "backspaces, then writes; (STYLE) colour, italics and underline from PAC / mid-row codes are applied to the text that follows in "
   "all three caption styles; (EXA) begin / end reach the model as exact frame multiples via to_temporal_offset at 30 fps or, for "
   "';' time codes, 30000/1001; (NUL) the caption to process is never dereferenced when there is none."
+  " (ORD-rows) the row dictionary of a caption is read through sorted(...) wherever the order of rows matters (the tabled order-free iterations aside);"
+  " (STATE-alias / STATE-global) no function of the anchored modules mutates a module- or class-level container, rebinds module / class state or mutates a mutable default argument, so a result never depends on earlier calls;"
 )
 RULE_TEXT = "per code class, per control code, per decoder-state call, per style property x caption style"
 UNDECIDED = ["everything the statement says about *what is displayed when*: pop-on flip, roll-up window depth, paint-on accumulation, cursor / backspace arithmetic, "
@@ -32,11 +34,28 @@ IGNORED_CONTROL = {
 }
 
 
+def line_roles(f):
+  """Names playing the fixed roles in SccLine.process: the context parameter, the word loop, its variable and the decoded-code local."""
+  cx = f.params[1]
+  loops = [lp for lp in own_nodes(f.node) if isinstance(lp, ast.For) and unparse(lp.iter) in ("self.scc_words", "iter(self.scc_words)") and isinstance(lp.target, ast.Name)]
+  if len(loops) != 1:
+    raise AnalysisError("SccLine.process: word loop not found")
+  w = loops[0].target.id
+  code = None
+  for st in own_nodes(loops[0]):
+    if isinstance(st, ast.Assign) and len(st.targets) == 1 and isinstance(st.targets[0], ast.Name) and unparse(st.value) == f"{w}.get_code()":
+      code = st.targets[0].id
+  if code is None:
+    raise AnalysisError("SccLine.process: the local holding <word>.get_code() was not found")
+  return cx, loops[0], w, code
+
+
 def check_dispatch(ctx):
   ix = ctx.ix
   f = ix.func("ttconv.scc.line:SccLine.process")
   ctx.unit(f.module)
-  tested = dsp.isinstance_classes(ix, f, "scc_code")
+  CX, _lp, W, CODE = line_roles(f)
+  tested = dsp.isinstance_classes(ix, f, CODE)
   fc = ix.func("ttconv.scc.word:SccWord._find_code")
   classes = []
   for n in ast.walk(fc.node):
@@ -52,9 +71,9 @@ def check_dispatch(ctx):
   want = {"SccPreambleAddressCode": "process_preamble_address_code", "SccAttributeCode": "process_attribute_code", "SccMidRowCode": "process_mid_row_code",
           "SccControlCode": "process_control_code", "SccSpecialCharacter": "process_text", "SccExtendedCharacter": "process_text"}
   for n in own_nodes(f.node):
-    if isinstance(n, ast.If) and isinstance(n.test, ast.Call) and unparse(n.test.func) == "isinstance" and unparse(n.test.args[0]) == "scc_code":
+    if isinstance(n, ast.If) and isinstance(n.test, ast.Call) and unparse(n.test.func) == "isinstance" and unparse(n.test.args[0]) == CODE:
       k = unparse(n.test.args[1]).split(".")[-1]
-      calls = [c.func.attr for st in n.body for c in ast.walk(st) if isinstance(c, ast.Call) and isinstance(c.func, ast.Attribute) and unparse(c.func.value) == "context"]
+      calls = [c.func.attr for st in n.body for c in ast.walk(st) if isinstance(c, ast.Call) and isinstance(c.func, ast.Attribute) and unparse(c.func.value) == CX]
       if k in want:
         ctx.check(want[k] in calls, "DSP-line", f"{f.qualname}|{k} -> context.{want[k]}", ctx.where(f.module, n), f"calls {calls}",
                   f"the {k} branch calls {calls} but not context.{want[k]}")
@@ -83,11 +102,16 @@ def check_dispatch(ctx):
 def check_channel_and_frames(ctx):
   ix = ctx.ix
   f = ix.func("ttconv.scc.line:SccLine.process")
+  CX, lp, W, CODE = line_roles(f)
   cfg = CFG(f.node)
   dom = cfg.dominators()
-  guards = [n.id for n in cfg.nodes if n.kind == "test" and isinstance(n.ast, ast.If) and "is not SccChannel.CHANNEL_1" in unparse(n.ast.test)
+
+  def skips_other_channels(test):
+    r = match.relation(test, lambda e: True, lambda e: unparse(e).endswith("SccChannel.CHANNEL_1"))
+    return r in ("is not", "!=")
+  guards = [n.id for n in cfg.nodes if n.kind == "test" and isinstance(n.ast, ast.If) and skips_other_channels(n.ast.test)
             and any(isinstance(x, ast.Continue) for x in n.ast.body)]
-  calls = [c for c in own_nodes(f.node) if isinstance(c, ast.Call) and isinstance(c.func, ast.Attribute) and unparse(c.func.value) == "context"
+  calls = [c for c in own_nodes(f.node) if isinstance(c, ast.Call) and isinstance(c.func, ast.Attribute) and unparse(c.func.value) == CX
            and (c.func.attr.startswith("process_") or c.func.attr == "backspace")]
   ctx.floor("ORD-channel", "decoder-state calls in SccLine.process", len(calls), 6)
   for c in calls:
@@ -95,19 +119,25 @@ def check_channel_and_frames(ctx):
     ctx.check(any(g in dom.get(nid, ()) for g in guards), "ORD-channel", f"{f.qualname}|{short(c, 60)}", ctx.where(f.module, c), "dominated by a channel-1 test that skips other channels",
               f"`{short(c, 60)}` is reachable for words that do not belong to channel 1: channel-2 data would be decoded into the captions")
   # the channel of a code word comes from the word itself; the channel of text from the last code word
-  loop = [lp for lp in own_nodes(f.node) if isinstance(lp, ast.For) and unparse(lp.iter) == "self.scc_words"]
-  if len(loop) != 1:
-    raise AnalysisError("SccLine.process: word loop not found")
-  lp = loop[0]
   body = lp.body
   # DUP
   first = body[0]
-  t = unparse(first.test) if isinstance(first, ast.If) else ""
-  ok = isinstance(first, ast.If) and "context.previous_word is not None" in t and "context.previous_word.value == scc_word.value" in t and "context.previous_word.is_code()" in t \
-    and any(isinstance(x, ast.Assign) and unparse(x) == "context.previous_word = None" for x in first.body) and isinstance(first.body[-1], ast.Continue)
+  conj = set()
+  if isinstance(first, ast.If):
+    for part in (first.test.values if isinstance(first.test, ast.BoolOp) and isinstance(first.test.op, ast.And) else [first.test]):
+      if match.is_none_test(part, lambda e: unparse(e) == f"{CX}.previous_word") is False:
+        conj.add("not-none")
+      elif match.relation(part, lambda e: unparse(e) == f"{CX}.previous_word.value", lambda e: unparse(e) == f"{W}.value") == "==":
+        conj.add("same-value")
+      elif unparse(part) == f"{CX}.previous_word.is_code()":
+        conj.add("is-code")
+      else:
+        conj.add("other:" + short(part, 40))
+  ok = isinstance(first, ast.If) and conj == {"not-none", "same-value", "is-code"} \
+    and any(isinstance(x, ast.Assign) and unparse(x) == f"{CX}.previous_word = None" for x in first.body) and isinstance(first.body[-1], ast.Continue)
   ctx.check(ok, "DUP", f"{f.qualname}|doubled control codes act once", ctx.where(f.module, first), "same value as the previous *code* word: forget it and skip",
             "the duplicate-suppression step changed: it must skip a word only if the previous word is a control code with the same value, and then forget the previous word")
-  remembered = any(isinstance(x, ast.Assign) and unparse(x) == "context.previous_word = scc_word" and parent(x) is lp for x in body)
+  remembered = any(isinstance(x, ast.Assign) and unparse(x) == f"{CX}.previous_word = {W}" and parent(x) is lp for x in body)
   ctx.check(remembered, "DUP", f"{f.qualname}|every processed channel-1 word is remembered", ctx.where(f.module, lp), "context.previous_word = scc_word at the end of the loop body",
             "processed words are no longer remembered for duplicate suppression")
   # FRAME
